@@ -445,6 +445,19 @@ def seg_seg(a0, a1, b0, b1):
           | ("overlap",) collinear with a common piece (more than a point)
           | ("touch", t, s) collinear sharing exactly one end point
     """
+    if a0 == a1 or b0 == b1:
+        # degenerate (zero-length) segment: a point
+        if a0 == a1 and b0 == b1:
+            return ("touch", Fr(0), Fr(0)) if a0 == b0 else ("none",)
+        if a0 == a1:
+            if not point_on_line_segment(b0, b1, a0):
+                return ("none",)
+            ax = 0 if b1[0] != b0[0] else 1
+            return ("touch", Fr(0), (a0[ax] - b0[ax]) / (b1[ax] - b0[ax]))
+        if not point_on_line_segment(a0, a1, b0):
+            return ("none",)
+        ax = 0 if a1[0] != a0[0] else 1
+        return ("touch", (b0[ax] - a0[ax]) / (a1[ax] - a0[ax]), Fr(0))
     d0 = (a1[0] - a0[0], a1[1] - a0[1])
     d1 = (b1[0] - b0[0], b1[1] - b0[1])
     diff = (b0[0] - a0[0], b0[1] - a0[1])
